@@ -11,7 +11,7 @@ from ..sim import net
 from ..sim.appsim import AppSim, exc_site
 
 PROPERTY_ID = 'C04'
-RULE = ('Histories of attach / duplicate attach / detach / detach-absent / interest / advance / reply over three subjects sharing one '
+RULE = ('Histories of attach / duplicate attach / detach / detach-absent / interest / advance / reply / (appv2) forwarder register+unregister over three subjects sharing one '
         'dict model: appv2 attach_handler/detach_handler (+reply callback), legacy set_interest_filter/unset_interest_filter, '
         'Dispatcher.register/unregister/dispatch. Prefixes from a small component alphabet (generic, typed, empty component; root '
         'included) attached through 11 input representations (4 of them in mutable buffers the caller overwrites right after the call), with '
@@ -50,7 +50,9 @@ def _history(subject):
     reply = st.fixed_dictionaries({'op': st.just('reply'), 'k': st.integers(0, 7)})
     ops = [attach, attach, attach_dup, detach, detach_k, interest, interest_k, interest_k, adv]
     if subject == 'v2':
-        ops += [reply, reply, adv]
+        fwd = st.fixed_dictionaries({'op': st.just('fwd'), 'which': st.sampled_from(['register', 'unregister', 'unregister']),
+                                     'k': st.integers(0, 7)})
+        ops += [reply, reply, adv, fwd]
         tail = st.one_of(st.just([]), st.just([]), st.tuples(shutdown, st.lists(reply, min_size=1, max_size=3)).map(lambda t: [t[0]] + t[1]))
         return st.tuples(st.lists(attach, min_size=1, max_size=4), st.lists(st.one_of(*ops), min_size=2, max_size=22), tail).map(
             lambda t: t[0] + t[1] + t[2])
@@ -280,6 +282,22 @@ def _run(subj, sim, ops, r):
                       f'attached {[[c.hex() for c in key] for key in model]}')
             elif new[0]['name'] != name:
                 r.bad(f'C04/{subj}/handler-got-wrong-name', f'{new[0]["name"]} != {name}')
+        elif k == 'fwd':
+            # appv2 only: register() / unregister() talk to the forwarder about a route; they are separate from attaching and
+            # detaching handlers and leave the dispatch table alone
+            if subj != 'v2' or down:
+                continue
+            key = attached_order[op['k'] % len(attached_order)] if attached_order and op['k'] < 6 else tuple(_comps([ALPHABET[0]]))
+            try:
+                ret = sim.vl.run(getattr(sim.app, op['which'])(list(key)))
+            except Exception as e:
+                r.bad(f'C04/v2/{op["which"]}-raised/{exc_site(e)}', repr(e))
+                return
+            sim.vl.settle()
+            if ret is not True:
+                r.bad(f'C04/v2/{op["which"]}-returned/{ret!r}', 'the registerer answered True')
+            flags.add('forwarder-command')
+            trace.append('F' if op['which'] == 'register' else 'U')
         elif k == 'adv':
             if sim is not None and not down:
                 sim.vl.advance(op['ms'] / 1000)
